@@ -359,8 +359,17 @@ func (h *H) settle() {
 
 // ---- actions
 
+func (h *H) newTermCall(t int64) (*proto.NewTermResponse, error) {
+	return h.rpc.NewTerm(context.Background(), &proto.NewTermRequest{Namespace: namespace, Shard: shardId, Term: t})
+}
+
 func (h *H) doNewTerm(t int64) {
-	resp, err := h.rpc.NewTerm(context.Background(), &proto.NewTermRequest{Namespace: namespace, Shard: shardId, Term: t})
+	resp, err := h.newTermCall(t)
+	h.newTermRecord(t, resp, err)
+}
+
+// newTermRecord: the monitors of C04 on a NewTerm answer, and the observable of the action
+func (h *H) newTermRecord(t int64, resp *proto.NewTermResponse, err error) {
 	res := errKind(err)
 	if err == nil {
 		hd := resp.HeadEntryId
@@ -381,6 +390,107 @@ func (h *H) doNewTerm(t int64) {
 		h.mu.Unlock()
 	}
 	h.record(fmt.Sprintf("NT:%d", t), res)
+}
+
+const raceWait = 100 * time.Millisecond
+
+// doNewTermRacingAppend: NewTerm(t) is parked right after its wal.Sync returned; an Append is delivered on the stream's
+// receiving goroutine meanwhile.  Whether the Append can complete while NewTerm is parked is observed (bounded wait:
+// on a controller that syncs under its lock the Append is blocked by the mutex, which is counted, not alarmed).
+func (h *H) doNewTermRacingAppend(t int64, sid int, e ent) {
+	sh := h.streams[sid]
+	g := h.gw
+	act := fmt.Sprintf("AP:%d:%d:%d:%d:%d", sid, e.term, e.off, e.pay, -1)
+	if sh == nil || !sh.recvAlive || g == nil || h.follower() == nil || sh.gw != g {
+		h.doNewTerm(t)
+		h.doAppend(sid, e, -1)
+		return
+	}
+	pk := g.armPark()
+	type ntRes struct {
+		resp *proto.NewTermResponse
+		err  error
+	}
+	ntDone := make(chan ntRes, 1)
+	go func() {
+		resp, err := h.newTermCall(t)
+		ntDone <- ntRes{resp, err}
+	}()
+	select {
+	case r := <-ntDone: // answered without syncing the WAL
+		g.disarmPark()
+		h.newTermRecord(t, r.resp, r.err)
+		h.doAppend(sid, e, -1)
+		return
+	case <-pk.arrived:
+	}
+	h.mu.Lock()
+	before := len(h.shadow)
+	h.mu.Unlock()
+	apDone := make(chan error, 1)
+	go func() { apDone <- h.appendCall(sh, e, -1) }()
+	select {
+	case err := <-apDone:
+		// the Append was handled between NewTerm's flush and NewTerm's critical section
+		h.o.Count("newterm-race:append-completed-while-newterm-parked-after-sync")
+		h.appendRecord(act, sh, before, -1, err)
+		close(pk.release)
+		r := <-ntDone
+		h.newTermRecord(t, r.resp, r.err)
+	case <-time.After(raceWait):
+		h.o.Count("newterm-race:append-blocked-by-controller-lock")
+		close(pk.release)
+		r := <-ntDone
+		h.newTermRecord(t, r.resp, r.err)
+		err := <-apDone
+		h.appendRecord(act, sh, before, -1, err)
+	}
+}
+
+// doNewTermRacingWrite: the same for the leader controller: a client write issued while NewTerm is parked after its sync.
+func (h *H) doNewTermRacingWrite(t, p int64) {
+	lc := h.leader()
+	g := h.gw
+	if lc == nil || g == nil {
+		h.doNewTerm(t)
+		h.doClientWrite(p)
+		return
+	}
+	pk := g.armPark()
+	type ntRes struct {
+		resp *proto.NewTermResponse
+		err  error
+	}
+	ntDone := make(chan ntRes, 1)
+	go func() {
+		resp, err := h.newTermCall(t)
+		ntDone <- ntRes{resp, err}
+	}()
+	select {
+	case r := <-ntDone:
+		g.disarmPark()
+		h.newTermRecord(t, r.resp, r.err)
+		h.doClientWrite(p)
+		return
+	case <-pk.arrived:
+	}
+	cwDone := make(chan int, 1)
+	go func() { cwDone <- h.clientWriteCall(lc, p) }()
+	select {
+	case seq := <-cwDone:
+		h.o.Count("newterm-race:write-completed-while-newterm-parked-after-sync")
+		h.clientWriteRecord(p, seq)
+		close(pk.release)
+		r := <-ntDone
+		h.newTermRecord(t, r.resp, r.err)
+	case <-time.After(raceWait):
+		h.o.Count("newterm-race:write-blocked-by-controller-lock")
+		close(pk.release)
+		r := <-ntDone
+		h.newTermRecord(t, r.resp, r.err)
+		seq := <-cwDone
+		h.clientWriteRecord(p, seq)
+	}
 }
 
 func entLeq(e ent, t, o int64) bool { return e.term < t || (e.term == t && e.off <= o) }
@@ -459,13 +569,24 @@ func (h *H) doAppend(sid int, e ent, commit int64) {
 		h.record(act, "imp")
 		return
 	}
+	h.mu.Lock()
 	before := len(h.shadow)
+	h.mu.Unlock()
+	err := h.appendCall(sh, e, commit)
+	h.appendRecord(act, sh, before, commit, err)
+}
+
+// appendCall: what handleServerStream does with one received request
+func (h *H) appendCall(sh *streamH, e ent, commit int64) error {
 	req := &proto.Append{Term: sh.term, CommitOffset: commit,
 		Entry: &proto.LogEntry{Term: e.term, Offset: e.off, Value: makeValue(e.pay), Timestamp: 1}}
 	h.mu.Lock()
 	h.reqTerm = sh.term
 	h.mu.Unlock()
-	err := safe(func() error { return server.VerifFollowerAppend(sh.fc, req, sh) })
+	return safe(func() error { return server.VerifFollowerAppend(sh.fc, req, sh) })
+}
+
+func (h *H) appendRecord(act string, sh *streamH, before int, commit int64, err error) {
 	if err != nil {
 		// handleServerStream: closeStream(err) and the receiving goroutine ends
 		server.VerifFollowerCloseStream(sh.fc, err)
@@ -635,26 +756,36 @@ func (h *H) writeCallback(seq int) concurrent.Callback[*proto.WriteResponse] {
 var writeSeqGen int
 
 func (h *H) doClientWrite(p int64) {
-	act := fmt.Sprintf("CW:%d", p)
 	lc := h.leader()
 	if lc == nil {
-		h.record(act, "err:notleader")
+		h.record(fmt.Sprintf("CW:%d", p), "err:notleader")
 		return
 	}
+	seq := h.clientWriteCall(lc, p)
+	h.clientWriteRecord(p, seq)
+}
+
+func (h *H) clientWriteCall(lc server.LeaderController, p int64) int {
+	h.mu.Lock()
 	writeSeqGen++
 	seq := writeSeqGen
+	h.mu.Unlock()
 	h.gw.mu.Lock()
 	h.gw.writeSeq = seq
 	h.gw.mu.Unlock()
 	req := &proto.WriteRequest{Shard: pbInt64(shardId), Puts: []*proto.PutRequest{{Key: "k", Value: []byte(strconv.FormatInt(p, 10))}}}
 	lc.Write(context.Background(), req, h.writeCallback(seq))
+	return seq
+}
+
+func (h *H) clientWriteRecord(p int64, seq int) {
 	res := "ok"
 	h.mu.Lock()
 	if k, refused := h.refused[seq]; refused {
 		res = k
 	}
 	h.mu.Unlock()
-	h.record(act, res)
+	h.record(fmt.Sprintf("CW:%d", p), res)
 }
 
 func pbInt64(v int64) *int64 { return &v }
